@@ -446,7 +446,7 @@ class Analysis:
                     vals = r.value.elts if isinstance(r.value, ast.Tuple) else [r.value]
                     for v in vals:
                         if self.is_tainted(v) and not self._is_elementwise_expr(v):
-                            out.append((r, f"returns `{short(v, 60)}`, which is (a view / reshaping of) the operand", n.id))
+                            out.append((r, "returns (a view / reshaping of) the operand", n.id))
         return out
 
     def _is_elementwise_expr(self, v: ast.AST) -> bool:
